@@ -109,6 +109,8 @@ def trigger_off_flags(prop):
     for e in allf:
         if e.get("status") == "open" and (e.get("property") == prop or prop in e.get("affects", [])):
             flags.update(e.get("trigger_off", []))
+    # build-out experiments only (never set by a registered command): re-enable shapes to see whether a finding still reproduces at random
+    flags -= set(x for x in os.environ.get("VERIF_FLAGS_ON", "").split(",") if x)
     return flags
 
 
